@@ -207,3 +207,66 @@ def rodrigues(axis, theta):
     a = a / np.linalg.norm(a)
     K = np.array([[0, -a[2], a[1]], [a[2], 0, -a[0]], [-a[1], a[0], 0]], dtype=np.float64)
     return np.eye(3) + math.sin(theta) * K + (1 - math.cos(theta)) * (K @ K)
+
+
+# --------------------------------------------------------------------------- solids of revolution
+def rev_sphere(zc, r):
+    """Squared-radius profile of a sphere centred at axis position zc: (a, b, c, zlo, zhi)."""
+    return (-1.0, 2.0 * zc, r * r - zc * zc, zc - r, zc + r)
+
+
+def rev_frustum(z1, r1, z2, r2):
+    """Squared-radius profile of a frustum from (z1, r1) to (z2, r2), z1 != z2."""
+    if z2 < z1:
+        z1, r1, z2, r2 = z2, r2, z1, r1
+    k = (r2 - r1) / (z2 - z1)
+    q = r1 - k * z1
+    return (k * k, 2.0 * k * q, q * q, z1, z2)
+
+
+def _quad_roots(a, b, c):
+    if abs(a) < 1e-300:
+        return [] if abs(b) < 1e-300 else [-c / b]
+    d = b * b - 4.0 * a * c
+    if d < 0:
+        return []
+    s = math.sqrt(d)
+    return [(-b - s) / (2.0 * a), (-b + s) / (2.0 * a)]
+
+
+def revolution_volume(profiles, mode):
+    """Exact volume of the union ('max') or intersection ('min') of coaxial solids of revolution.
+
+    Each profile is (a, b, c, zlo, zhi): rho^2(z) = a z^2 + b z + c on [zlo, zhi], 0 outside.
+    The axis is cut at every interval end, every root of a profile and every crossing of two
+    profiles; on each piece the selected profile is one quadratic and is integrated exactly
+    (cubic antiderivative).  Nothing here shares a case analysis with the library.
+    """
+    bps = set()
+    for (a, b, c, lo, hi) in profiles:
+        bps.update([lo, hi])
+        bps.update(_quad_roots(a, b, c))
+    for i, (a, b, c, _, _) in enumerate(profiles):
+        for (a2, b2, c2, _, _) in profiles[i + 1:]:
+            bps.update(_quad_roots(a - a2, b - b2, c - c2))
+    lo = min(p[3] for p in profiles)
+    hi = max(p[4] for p in profiles)
+    pts = sorted(z for z in bps if lo <= z <= hi)
+    total = 0.0
+    for z0, z1 in zip(pts, pts[1:]):
+        if z1 <= z0:
+            continue
+        zm = 0.5 * (z0 + z1)
+        vals = []
+        for (a, b, c, l, h) in profiles:
+            if l <= zm <= h:
+                vals.append((max(a * zm * zm + b * zm + c, 0.0), (a, b, c)))
+            else:
+                vals.append((0.0, (0.0, 0.0, 0.0)))
+        pick = max(vals, key=lambda v: v[0]) if mode == "max" else min(vals, key=lambda v: v[0])
+        if pick[0] <= 0.0:
+            continue
+        a, b, c = pick[1]
+        F = lambda z: a * z ** 3 / 3.0 + b * z * z / 2.0 + c * z  # noqa
+        total += F(z1) - F(z0)
+    return math.pi * total
